@@ -1,9 +1,10 @@
 // C33: the metrics store reports what was recorded.
-//  Part 1 (E1 seqx): every sequential history ≤ depth over {register, write ops, get} per metric kind on the
-//          real MultiMetrics against a plain sequential store.
-//  Part 2 (E3 vsched): every 3-thread program with (2,2,1) ops from the kind's alphabet, every schedule up
-//          to the preemption bound (scheduling point at every sync.Map / atomic operation of package
-//          metrics), call/return history checked for linearizability (porcupine) against the same store.
+//
+//	Part 1 (E1 seqx): every sequential history ≤ depth over {register, write ops, get} per metric kind on the
+//	        real MultiMetrics against a plain sequential store.
+//	Part 2 (E3 vsched): every 3-thread program with (2,2,1) ops from the kind's alphabet, every schedule up
+//	        to the preemption bound (scheduling point at every sync.Map / atomic operation of package
+//	        metrics), call/return history checked for linearizability (porcupine) against the same store.
 package main
 
 import (
